@@ -184,8 +184,12 @@ def write_evidence(ctx, mod, pid, tier, seed, insts, results, violations, known_
     level = getattr(mod, "LEVEL", "model_checking")
     done = [r for r in results if r.verdict in ("pass", "fail")]
     nontriv = set()
+    nt = getattr(mod, "NONTRIVIAL", None)
     for r in done:
-        if (r.witness_inputs is not None or not r.inst.witness) and (r.stats.get("vars", 0) > 0 or r.stats.get("vccs_remaining", 0) > 0):
+        if nt is not None:
+            if nt(r):
+                nontriv.add(r.inst.name)
+        elif (r.witness_inputs is not None or not r.inst.witness) and (r.stats.get("vars", 0) > 0 or r.stats.get("vccs_remaining", 0) > 0):
             nontriv.add(r.inst.name)
     samples = []
     for r in sorted(done, key=lambda r: r.inst.name)[:: max(1, len(done) // 6 or 1)][:8]:
@@ -212,7 +216,8 @@ def write_evidence(ctx, mod, pid, tier, seed, insts, results, violations, known_
         "rule": ("one evaluation = one CBMC run (symbolic execution of the real pixman translation units + SAT verdict over all "
                  "symbolic inputs of the instance) — property run and its reachability-witness twin are counted separately; "
                  "an instance is non-trivial iff its witness twin shows the end of the harness reachable and the sliced formula "
-                 "has >0 SAT variables; distinct = distinct instance key (harness x -D set). " + getattr(mod, "RULE", "")),
+                 "has >0 SAT variables / VCCs left after simplification (unless the property module states its own rule below); "
+                 "distinct = distinct instance key (harness x -D set). " + getattr(mod, "RULE", "")),
         "samples": samples or [{"note": "no instance finished"}],
         "instances_total": len(insts),
         "instances_hold": sum(1 for r in results if r.verdict == "pass"),
